@@ -5,6 +5,8 @@ CONSTANTS
   SpecSet = {"s1", "s2"}
   SizeSet = {"A", "B", "dyn"}
   TermSet = {1, 2}
+  KindSet = {"path", "pil", "url"}
+  PeerVars = {"same", "other"}
   FaultSteps = {"open", "seek", "convert", "resize", "composite", "encode"}
 VIEW View
 INVARIANT TypeOK
@@ -19,4 +21,5 @@ PROPERTY SizeNeverChangedByRender
 PROPERTY AnimatedDrawKeepsFrame
 PROPERTY RejectedLeavesStateAlone
 PROPERTY SeekKeepsRepeatCount
+PROPERTY ImagesIndependent
 CHECK_DEADLOCK FALSE
